@@ -202,7 +202,7 @@ def build(config, tier):
                           bounded="iterator length 3 (unwind 5)", clauses=2, tier="thorough",
                           desc="%s over an iterator of 3 == left fold of %s from %s" % (tr, sym, unit)))
     # canaries: deliberately false clauses must be refuted
-    if config == "sse2":
+    if config in ("sse2",):
         obs.append(Ob("c01_sse2_canary_floor_is_ceil", PROP,
                       'let a = mk::<Vec4>(); let r = a.floor(); check!(__verif::leq32x4(r.to_array(), __verif::map4(a.to_array(), |a: f32| a.ceil())), "floor == ceil");',
                       fn="glam::Vec4::floor", kind="canary", expect="refute", desc="canary: floor specified as ceil"))
@@ -213,14 +213,9 @@ def build(config, tier):
 
 
 def run(s):
-    configs = ["sse2", "scalar"] if s.tier == "quick" else ["sse2", "scalar", "fma"]
+    configs = ["sse2", "scalar"]
     for cfg in configs:
-        contracts, obs, extra = build("sse2" if cfg == "fma" else cfg, s.tier)
-        if cfg == "fma":
-            for o in obs:
-                o.name = o.name.replace("c01_sse2_", "c01_fma_")
-            import re as _re
-            obs = [o for o in obs if _re.search(r"_(vec3a|vec4)_|canary", o.name)]
+        contracts, obs, extra = build(cfg, s.tier)
         s.run_config(cfg, contracts, obs, extra_rust=extra)
     s.assumptions += ASSUMPTIONS
     return s.finish(level_note=NOTE, trusted_base=TRUSTED, not_decided=NOT_DECIDED)
